@@ -80,6 +80,12 @@ enum Defect {
     IssuerKind,
     /// the issuer name carries another fabric id than the issuing certificate's subject
     IssuerFabric(Which),
+    /// the issuer name is the issuing certificate's subject name without its last attribute / with no attribute at all
+    IssuerShorter(Which),
+    IssuerEmpty(Which),
+    /// ... with one more attribute at the end / with its first two attributes swapped
+    IssuerLonger(Which),
+    IssuerReordered(Which),
     /// authority key id does not name the issuing certificate's key
     Akid(Which),
     /// subject key id of an authority changed (children then point elsewhere; the root is no longer self-issued)
@@ -140,6 +146,38 @@ enum Entry {
     CaseResponderPresents,
 }
 
+/// Issuer name = the issuing certificate's subject name cut short / emptied / extended / reordered.
+/// False when the shape does not exist for this name (e.g. nothing to cut from a one-attribute name).
+fn reshape_issuer(issuer: &mut Vec<(u8, u64)>, d: Defect) -> bool {
+    match d {
+        Defect::IssuerShorter(_) => {
+            if issuer.len() < 2 {
+                return false;
+            }
+            issuer.pop();
+            true
+        }
+        Defect::IssuerEmpty(_) => {
+            issuer.clear();
+            true
+        }
+        Defect::IssuerLonger(_) => {
+            // one more attribute of a kind the name does not have yet
+            let extra = if issuer.iter().any(|a| a.0 == certw::DN_FABRIC_ID) { (certw::DN_NOC_CAT, 0x0001_0001) } else { (certw::DN_FABRIC_ID, 0x0BAD) };
+            issuer.push(extra);
+            true
+        }
+        Defect::IssuerReordered(_) => {
+            if issuer.len() < 2 || issuer[0] == issuer[1] {
+                return false;
+            }
+            issuer.swap(0, 1);
+            true
+        }
+        _ => false,
+    }
+}
+
 /// `Some(true)` must be rejected, `Some(false)` must be accepted, `None` not judged (the property does not say).
 fn must_reject(b: &Base, d: Defect, e: Entry) -> Option<bool> {
     use Defect::*;
@@ -152,7 +190,7 @@ fn must_reject(b: &Base, d: Defect, e: Entry) -> Option<bool> {
             }
             true
         }
-        IssuerCaId(w) | IssuerFabric(w) => {
+        IssuerCaId(w) | IssuerFabric(w) | IssuerShorter(w) | IssuerEmpty(w) | IssuerLonger(w) | IssuerReordered(w) => {
             if !has(w) {
                 return Option::None;
             }
@@ -316,6 +354,11 @@ fn build_chain<C: Crypto>(c: &C, k: &Keys, leaf: &KeyPair, node_id: u64, b: &Bas
         IssuerCaId(Which::Rcac) => {
             other_dn(&mut rc.issuer, certw::DN_ROOT_CA_ID);
         }
+        IssuerShorter(Which::Rcac) | IssuerEmpty(Which::Rcac) | IssuerLonger(Which::Rcac) | IssuerReordered(Which::Rcac) => {
+            if !reshape_issuer(&mut rc.issuer, d) {
+                return Ok(Option::None);
+            }
+        }
         IssuerFabric(Which::Rcac) => {
             if !other_dn(&mut rc.issuer, certw::DN_FABRIC_ID) {
                 return Ok(Option::None);
@@ -350,6 +393,11 @@ fn build_chain<C: Crypto>(c: &C, k: &Keys, leaf: &KeyPair, node_id: u64, b: &Bas
             IssuerCaId(Which::Icac) => {
                 other_dn(&mut ic.issuer, certw::DN_ROOT_CA_ID);
             }
+            IssuerShorter(Which::Icac) | IssuerEmpty(Which::Icac) | IssuerLonger(Which::Icac) | IssuerReordered(Which::Icac) => {
+                if !reshape_issuer(&mut ic.issuer, d) {
+                    return Ok(Option::None);
+                }
+            }
             IssuerFabric(Which::Icac) => {
                 if !other_dn(&mut ic.issuer, certw::DN_FABRIC_ID) {
                     return Ok(Option::None);
@@ -372,7 +420,7 @@ fn build_chain<C: Crypto>(c: &C, k: &Keys, leaf: &KeyPair, node_id: u64, b: &Bas
         }
         (for_children, &k.ica, Some(bytes))
     } else {
-        if matches!(d, SigBit(Which::Icac, _) | IssuerCaId(Which::Icac) | IssuerFabric(Which::Icac) | Akid(Which::Icac) | Skid(Which::Icac) | NotYetValid(Which::Icac) | Expired(Which::Icac) | NotYetValidByOne(Which::Icac) | ExpiredByOne(Which::Icac) | CaNotCa(Which::Icac) | CaNoBasic(Which::Icac) | CaKuNoCertSign(Which::Icac) | CaNoKu(Which::Icac) | CriticalExt(Which::Icac) | CriticalExtInLaterElement(Which::Icac) | CriticalExtLaterInBlob(Which::Icac) | IcacFabricOther | Swapped | AuthorityAsLeaf | IcacIsRoot) {
+        if matches!(d, SigBit(Which::Icac, _) | IssuerCaId(Which::Icac) | IssuerFabric(Which::Icac) | IssuerShorter(Which::Icac) | IssuerEmpty(Which::Icac) | IssuerLonger(Which::Icac) | IssuerReordered(Which::Icac) | Akid(Which::Icac) | Skid(Which::Icac) | NotYetValid(Which::Icac) | Expired(Which::Icac) | NotYetValidByOne(Which::Icac) | ExpiredByOne(Which::Icac) | CaNotCa(Which::Icac) | CaNoBasic(Which::Icac) | CaKuNoCertSign(Which::Icac) | CaNoKu(Which::Icac) | CriticalExt(Which::Icac) | CriticalExtInLaterElement(Which::Icac) | CriticalExtLaterInBlob(Which::Icac) | IcacFabricOther | Swapped | AuthorityAsLeaf | IcacIsRoot) {
             return Ok(Option::None);
         }
         (rc_for_children.clone(), signing_root, Option::None)
@@ -395,6 +443,11 @@ fn build_chain<C: Crypto>(c: &C, k: &Keys, leaf: &KeyPair, node_id: u64, b: &Bas
         Skid(Which::Noc) => return Ok(Option::None),
         IssuerCaId(Which::Noc) => {
             other_dn(&mut nc.issuer, if b.icac { certw::DN_ICA_ID } else { certw::DN_ROOT_CA_ID });
+        }
+        IssuerShorter(Which::Noc) | IssuerEmpty(Which::Noc) | IssuerLonger(Which::Noc) | IssuerReordered(Which::Noc) => {
+            if !reshape_issuer(&mut nc.issuer, d) {
+                return Ok(Option::None);
+            }
         }
         IssuerFabric(Which::Noc) => {
             if !other_dn(&mut nc.issuer, certw::DN_FABRIC_ID) {
@@ -706,6 +759,7 @@ fn defects(all_sig_bits: bool) -> Vec<Defect> {
                 v.push(SigBit(w, i));
             }
         }
+        v.extend([IssuerShorter(w), IssuerEmpty(w), IssuerLonger(w), IssuerReordered(w)]);
         v.extend([IssuerCaId(w), IssuerFabric(w), Akid(w), NotYetValid(w), Expired(w), NotYetValidByOne(w), ExpiredByOne(w), CriticalExt(w), CriticalExtInLaterElement(w), CriticalExtLaterInBlob(w)]);
         if w != Which::Noc {
             v.extend([Skid(w), CaNotCa(w), CaNoBasic(w), CaKuNoCertSign(w), CaNoKu(w)]);
